@@ -212,7 +212,7 @@ func (l *SeqContext1) encode() []byte {
 		if rules == nil {
 			continue
 		}
-		seqRuleSetOffsets[i] = uint16(total)
+		seqRuleSetOffsets[i] = offs16(total)
 		total += 2 + 2*len(rules)
 		for _, rule := range rules {
 			total += 4 + 2*len(rule.Input) + 4*len(rule.Actions)
@@ -224,7 +224,7 @@ func (l *SeqContext1) encode() []byte {
 	buf := make([]byte, 0, total)
 	buf = append(buf,
 		0, 1, // format
-		byte(coverageOffset>>8), byte(coverageOffset),
+		byte(offs16(int(coverageOffset))>>8), byte(coverageOffset),
 		byte(seqRuleSetCount>>8), byte(seqRuleSetCount),
 	)
 	for _, offset := range seqRuleSetOffsets {
@@ -459,7 +459,7 @@ func (l *SeqContext2) encode() []byte {
 		if rules == nil {
 			continue
 		}
-		seqRuleSetOffsets[i] = uint16(total)
+		seqRuleSetOffsets[i] = offs16(total)
 		total += 2 + 2*len(rules)
 		for _, rule := range rules {
 			total += 4 + 2*len(rule.Input) + 4*len(rule.Actions)
@@ -477,7 +477,7 @@ func (l *SeqContext2) encode() []byte {
 	buf := make([]byte, 0, total)
 	buf = append(buf,
 		0, 2, // format
-		byte(coverageOffset>>8), byte(coverageOffset),
+		byte(offs16(int(coverageOffset))>>8), byte(coverageOffset),
 		byte(classDefOffset>>8), byte(classDefOffset),
 		byte(seqRuleSetCount>>8), byte(seqRuleSetCount),
 	)
@@ -628,7 +628,7 @@ func (l *SeqContext3) encode() []byte {
 	total := 6 + 2*len(l.Input) + 4*len(l.Actions)
 	coverageOffsets := make([]uint16, glyphCount)
 	for i, cov := range l.Input {
-		coverageOffsets[i] = uint16(total)
+		coverageOffsets[i] = offs16(total)
 		total += cov.ToTable().EncodeLen()
 	}
 
@@ -886,7 +886,7 @@ func (l *ChainedSeqContext1) encode() []byte {
 		if rules == nil {
 			continue
 		}
-		chainedSeqRuleSetOffsets[i] = uint16(total)
+		chainedSeqRuleSetOffsets[i] = offs16(total)
 		total += 2 + 2*len(rules)
 		for _, rule := range rules {
 			total += 2 + 2*len(rule.Backtrack)
@@ -899,7 +899,7 @@ func (l *ChainedSeqContext1) encode() []byte {
 	buf := make([]byte, 0, total)
 	buf = append(buf,
 		0, 1, // format
-		byte(coverageOffset>>8), byte(coverageOffset),
+		byte(offs16(int(coverageOffset))>>8), byte(coverageOffset),
 		byte(chainedSeqRuleSetCount>>8), byte(chainedSeqRuleSetCount),
 	)
 	for _, offset := range chainedSeqRuleSetOffsets {
@@ -1249,7 +1249,7 @@ func (l *ChainedSeqContext2) encode() []byte {
 		if total > 0xFFFF {
 			panic("ChainedSeqContext2 too large")
 		}
-		chainedSeqRuleSetOffsets[i] = uint16(total)
+		chainedSeqRuleSetOffsets[i] = offs16(total)
 		total += 2 + 2*len(rr)
 		for _, rule := range rr {
 			total += 2 + 2*len(rule.Backtrack)
@@ -1262,7 +1262,7 @@ func (l *ChainedSeqContext2) encode() []byte {
 	buf := make([]byte, 0, total)
 	buf = append(buf,
 		0, 2, // format
-		byte(coverageOffset>>8), byte(coverageOffset),
+		byte(offs16(int(coverageOffset))>>8), byte(coverageOffset),
 		byte(backtrackOffset>>8), byte(backtrackOffset),
 		byte(inputOffset>>8), byte(inputOffset),
 		byte(lookaheadOffset>>8), byte(lookaheadOffset),
@@ -1501,19 +1501,19 @@ func (l *ChainedSeqContext3) encode() []byte {
 	total += 4 * len(l.Actions)
 	backtrackCoverageOffsets := make([]uint16, backtrackGlyphCount)
 	for i, set := range l.Backtrack {
-		backtrackCoverageOffsets[i] = uint16(total)
+		backtrackCoverageOffsets[i] = offs16(total)
 		cov := set.ToTable()
 		total += cov.EncodeLen()
 	}
 	inputCoverageOffsets := make([]uint16, inputGlyphCount)
 	for i, set := range l.Input {
-		inputCoverageOffsets[i] = uint16(total)
+		inputCoverageOffsets[i] = offs16(total)
 		cov := set.ToTable()
 		total += cov.EncodeLen()
 	}
 	lookaheadCoverageOffsets := make([]uint16, lookaheadGlyphCount)
 	for i, set := range l.Lookahead {
-		lookaheadCoverageOffsets[i] = uint16(total)
+		lookaheadCoverageOffsets[i] = offs16(total)
 		cov := set.ToTable()
 		total += cov.EncodeLen()
 	}
